@@ -32,6 +32,11 @@ def other(kind, strform, nul):
 
 
 MISSING = {'k': 'missing', 's': [], 'tnt': False, 'nul': False, 'enc': ''}
+KERR = {'k': 'kerr', 's': [], 'tnt': False, 'nul': False, 'enc': ''}      # defined, but evaluating it raises KeyError
+
+
+def _raise_keyerror():
+    return {}['inner-key']
 
 
 def sweep(values, modsets, fmts=('',), cfmts=('s',), sizes=(-1,), etcs=('default',), nulls=(False,),
@@ -80,6 +85,8 @@ def pyvalue(v):
         return float(s) if '.' in s else int(s)
     if k == 'none':
         return None
+    if k == 'kerr':
+        return _raise_keyerror
     if k == 'elist':
         return []
     raise ValueError(k)
